@@ -195,7 +195,7 @@ SIBLINGS = [
 
 
 
-def be_decode_exact(cx, qual):
+def be_decode_exact(cx, qual, nwords=4, cursor_form=True):
     """`u256_from_be_bytes`: limb 3-i is the big-endian u64 at bytes 8i..8i+8 of the input, i = 0..3 -- decided exactly
     when the limbs are stored as `out[L] = u64::from_be_bytes(<8-byte window of input>)` in a constant-trip loop: index
     and window bounds are evaluated for every iteration.  (True/False, text) or None when the function is not of that form
@@ -204,10 +204,11 @@ def be_decode_exact(cx, qual):
     fn = cx.F.fns.get(qual)
     if fn is None:
         return None
-    arrs = [l.get('name') for l in fn.locals if l.get('name') and (l.get('ty') or '').replace(' ', '') == '[u64;4]']
+    arrs = [l.get('name') for l in fn.locals if l.get('name') and (l.get('ty') or '').replace(' ', '') == '[u64;%d]' % nwords]
     st = [(a_, b_) for nm in arrs for a_, b_ in _I.stores(fn, cx.F, nm)]
     st = [(_I.shorten_vars(a_), _I.shorten_vars(b_)) for a_, b_ in st]
-    if st == [('each(rev(Range::Range{0, 4}))', 'unwrap(read_u64(new(%s)))' % ('$' + fn.local_name(1)))]:
+    st = [(a_, b_) for a_, b_ in st if 'from_be_bytes' in b_ or 'read_u64' in b_ or ('$' + fn.local_name(1)) in b_]
+    if cursor_form and st == [('each(rev(Range::Range{0, 4}))', 'unwrap(read_u64(new(%s)))' % ('$' + fn.local_name(1)))]:
         # sequential reads through one Cursor over the input: the k-th iteration (limb 3-k) reads bytes 8k..8k+8;
         # big-endian by the type argument of read_u64, one cursor created before the loop, one read per iteration
         rd = [(b_, t_) for b_, t_ in fn.calls() if t_['fn']['k'] == 'def' and last(t_['fn']['name']) == 'read_u64']
@@ -245,16 +246,16 @@ def be_decode_exact(cx, qual):
                 if base[0] == 'call' and base[1] == 'index' and len(base[2]) == 2 and base[2][1][0] == 'aggr' and base[2][1][1] == 'RangeTo::RangeTo':
                     base = base[2][0]          # input[..32][a..b]
                 if base == ('sym', pname) and None not in (a_, b_, L):
-                    ok = b_ - a_ == 8 and 0 <= L <= 3 and a_ == 8 * (3 - L)
+                    ok = b_ - a_ == 8 and 0 <= L <= nwords - 1 and a_ == 8 * (nwords - 1 - L)
             if not ok:
-                return (False, 'limb %s is not the big-endian u64 at input[%s..%s+8] (store %s = %s)' % (L, 8 * (3 - L) if L is not None else '?', 8 * (3 - L) if L is not None else '?', it[:50], vt[:90]))
+                return (False, 'limb %s is not the big-endian u64 at input[%s..%s+8] (store %s = %s)' % (L, 8 * (nwords - 1 - L) if L is not None else '?', 8 * (nwords - 1 - L) if L is not None else '?', it[:50], vt[:90]))
             if L in seen:
                 return (False, 'limb %d is stored twice' % L)
             seen[L] = True
-    if sorted(seen) != [0, 1, 2, 3]:
+    if sorted(seen) != list(range(nwords)):
         return (False, 'limbs stored: %s' % sorted(seen))
     rets = [v_ for _, v_ in _I.returns(fn, cx.F)]
-    return (True, 'limb 3-i = BE64(input[8i..8i+8]) for i = 0..3 (indices and window bounds evaluated for every iteration)')
+    return (True, 'limb %d-i = BE64(input[8i..8i+8]) for i = 0..%d (indices and window bounds evaluated for every iteration)' % (nwords - 1, nwords - 1))
 
 
 def s_siblings(cx, rule, only=None):
